@@ -42,8 +42,8 @@ impl HeaderMap {
     pub fn new() -> (r: HeaderMap) ensures hm_view(r) == Seq::<(Seq<char>, Seq<char>)>::empty() { unimplemented!() }
     /// HeaderMap::insert: replaces every value stored under `name`
     #[verifier::external_body]
-    pub fn insert(&mut self, name: &str, v: HeaderValue) -> (r: Option<HeaderValue>)
-        ensures hm_view(*final(self)) == hm_without(hm_view(*old(self)), name@).push((name@, hv_view(v))) { unimplemented!() }
+    pub fn insert<K: HeaderText>(&mut self, name: K, v: HeaderValue) -> (r: Option<HeaderValue>)
+        ensures hm_view(*final(self)) == hm_without(hm_view(*old(self)), name.text()).push((name.text(), hv_view(v))) { unimplemented!() }
 }
 /// things accepted as header names / values by Builder::header (TryFrom<K> for HeaderName / HeaderValue)
 pub trait HeaderText { spec fn text(&self) -> Seq<char>; }
